@@ -15,7 +15,11 @@ func VerifC02_a1_put() {
 	slashInID, zeroQd := false, false
 	switch nondetChoice("focus", 4) {
 	case 0: // path parameters
-		p.ID = nondetString("id", 1) + nondetStringUpTo("id-tail", 1)
+		if nondetBool("id-percent-template") {
+			p.ID = "%" + nondetString("id-hex", 2) // %XX look-alikes must arrive as typed
+		} else {
+			p.ID = nondetString("id", 1) + nondetStringUpTo("id-tail", 1)
+		}
 		p.Ver = nondetInt("ver")
 		slashInID = strings.Contains(p.ID, "/")
 	case 1: // query string
